@@ -43,6 +43,7 @@ type deadConn struct {
 	ready    time.Time
 	resp     []byte
 	req      []byte
+	onFinal  func() // called right before the last response bytes are handed out
 }
 
 func newDeadConn(hs time.Duration, fail bool) *deadConn {
@@ -99,7 +100,12 @@ func (c *deadConn) Read(p []byte) (int, error) {
 			}
 			n := copy(p, c.resp)
 			c.resp = c.resp[n:]
+			f := c.onFinal
+			last := len(c.resp) == 0
 			c.mu.Unlock()
+			if last && f != nil {
+				f()
+			}
 			return n, nil
 		}
 		// wait for: readiness, deadline, or a state change
@@ -195,6 +201,12 @@ func init() {
 		case "deadline":
 			ctx, cancel = context.WithTimeout(context.Background(), parseU(f[1]))
 			cancelAt = parseU(f[1])
+		case "atfinish":
+			// forced order: the handshake I/O completes, and the context is cancelled (and the watcher given
+			// time to poison the conn) before Dial gets to call done()
+			ctx, cancel = context.WithCancel(context.Background())
+			c2 := cancel
+			conn.onFinal = func() { c2(); time.Sleep(unit / 2) }
 		case "none":
 			if !bg {
 				ctx, cancel = context.WithCancel(context.Background()) // non-background, never ends by itself
@@ -314,6 +326,14 @@ func genC20(tier string, r *rng) {
 			continue
 		}
 		run(fmt.Sprintf("dialc %s %s %s %s %s %s", k.bg, k.timeout, k.ctx, k.dial, k.hs, k.fail))
+	}
+	// forced order 'handshake finished, then poisoned, then done()'
+	for _, dd := range []string{"0", "2"} {
+		for _, hs := range []string{"1", "2"} {
+			for _, to := range []string{"0", "7"} {
+				run(fmt.Sprintf("dialc 0 %s atfinish %s %s 0", to, dd, hs))
+			}
+		}
 	}
 	// the unforced race: handshake finishing at the instant the context ends (either outcome is legal)
 	for i := 0; i < 6; i++ {
